@@ -9,6 +9,7 @@ structure DSub where
   h : Nat
   kind : Nat        -- how the pending `next()` (if any) was started: 0 by hand (rdy/sus/res), 1 blocking thread, 2 coroutine
   gone : Bool
+  follow : Option Nat := none   -- coroutine: subscriber whose `next()` it awaits as soon as it is resumed
   deriving Inhabited
 
 structure D where
@@ -40,22 +41,67 @@ def parseMode : String → Option Mode
   | "r" => some Mode.recent
   | _ => none
 
-/-- after a step that released subscribers: hand-driven ones just see their awaiter called; a blocked thread / a
-coroutine goes on to `check_next()` -/
+/-- `next()` as a whole (coroutine, blocking thread): ready? else subscribe; unless parked, fetch.
+Returns `none` when the subscriber is not free for a new `next()`. -/
+def wholeNextCore (d : D) (sid : Nat) (x : DSub) (kind : Nat) (follow : Option Nat) : Option (D × String × Bool) :=
+  match step d.s (Op.advance x.h) with
+  | (s1, Res.flag true) =>
+      let (s2, r) := step s1 (Op.getValue x.h)
+      let txt := match r with | Res.value v => valStr v | _ => "?"
+      some ({ d with s := s2 }, s!"{txt}@{(regOf s2 x.h).pos}", false)
+  | (s1, Res.flag false) =>
+      (match step s1 (Op.advanceSuspend x.h) with
+      | (s2, Res.flag true) =>
+          some ({ d with s := s2 }.put sid { x with kind := kind, follow := follow }, s!"parked@{(regOf s2 x.h).pos}", true)
+      | (s2, Res.flag false) =>
+          let (s3, r) := step s2 (Op.getValue x.h)
+          let txt := match r with | Res.value v => valStr v | _ => "?"
+          some ({ d with s := s3 }, s!"{txt}@{(regOf s3 x.h).pos}", false)
+      | _ => none)
+  | _ => none
+
+/-- a resumed listener coroutine goes straight into `next()` of subscriber `b` (inside the wake-up pass) -/
+def followNext (d : D) (b : Nat) : D × (Nat × String) :=
+  match d.live b with
+  | none => (d, (b, s!"c{b}=bad"))
+  | some x =>
+    match wholeNextCore d b x 2 none with
+    | none => (d, (b, s!"c{b}=bad"))
+    | some (d1, txt, _) => (d1, (b, s!"c{b}={txt}"))
+
+/-- after a step that released subscribers (in `_regs` order, as the wake-up loop runs): hand-driven ones just see their
+awaiter called; a coroutine goes on to `check_next()` at once and then into its follow-up `next()`; blocked threads
+run concurrently and are joined after the operation (second pass) -/
 def wakeEvents (d : D) (woken : List Nat) : D × List (Nat × String) :=
-  woken.foldl (fun (acc : D × List (Nat × String)) sid =>
+  let pass1 := woken.foldl (fun (acc : D × List (Nat × String)) sid =>
     let (d, evs) := acc
     match d.live sid with
     | none => (d, evs)
     | some x =>
       if x.kind == 0 then (d, evs ++ [(sid, s!"w{sid}")])
-      else
+      else if x.kind == 2 then
         let (s1, r) := step d.s (Op.getValue x.h)
-        let tag := if x.kind == 1 then "b" else "c"
         let txt := match r with
           | Res.value v => valStr v
           | _ => "?"
-        ({ d with s := s1 }.put sid { x with kind := 0 }, evs ++ [(sid, s!"{tag}{sid}={txt}@{(regOf s1 x.h).pos}")])) (d, [])
+        let d1 := { d with s := s1 }.put sid { x with kind := 0, follow := none }
+        let evs1 := evs ++ [(sid, s!"c{sid}={txt}@{(regOf s1 x.h).pos}")]
+        match x.follow with
+        | none => (d1, evs1)
+        | some b => let (d2, e) := followNext d1 b; (d2, evs1 ++ [e])
+      else (d, evs)) (d, [])
+  woken.foldl (fun (acc : D × List (Nat × String)) sid =>
+    let (d, evs) := acc
+    match d.live sid with
+    | none => (d, evs)
+    | some x =>
+      if x.kind == 1 then
+        let (s1, r) := step d.s (Op.getValue x.h)
+        let txt := match r with
+          | Res.value v => valStr v
+          | _ => "?"
+        ({ d with s := s1 }.put sid { x with kind := 0 }, evs ++ [(sid, s!"b{sid}={txt}@{(regOf s1 x.h).pos}")])
+      else (d, evs)) pass1
 
 def evLine (head : String) (evs : List (Nat × String)) : String :=
   withEvents head ((sortBy (fun e => (e.1, 0)) evs).map (·.2))
@@ -67,7 +113,9 @@ def globalOp (d : D) (op : Op) (head : State → String) : D × String :=
     | Res.woken l => l
     | _ => []
   let (d2, evs) := wakeEvents { d with s := s1 } woken
-  (d2, evLine (head d2.s) evs)
+  -- the wake-up pass is over: second lock region of push_lk
+  let d3 := if s1.inWake > d.s.inWake then { d2 with s := (step d2.s Op.relock).1 } else d2
+  (d3, evLine (head d3.s) evs)
 
 def subscribeOp (d : D) (sid : Nat) (op : Op) (name : String) : D × String :=
   match d.find sid with
@@ -77,23 +125,16 @@ def subscribeOp (d : D) (sid : Nat) (op : Op) (name : String) : D × String :=
     | (s1, Res.handle h) => ({ d with s := s1 }.put sid { h := h, kind := 0, gone := false }, s!"{name} {sid}{posStr s1 h}")
     | _ => (d, "bad")
 
-/-- `next()` as a whole (coroutine, blocking thread): ready? else subscribe; unless parked, fetch -/
-def wholeNext (d : D) (sid : Nat) (x : DSub) (name : String) (kind : Nat) : D × String :=
-  match step d.s (Op.advance x.h) with
-  | (s1, Res.flag true) =>
-      let (s2, r) := step s1 (Op.getValue x.h)
-      let txt := match r with | Res.value v => valStr v | _ => "?"
-      ({ d with s := s2 }, s!"{name} {sid} {txt}{posStr s2 x.h}")
-  | (s1, Res.flag false) =>
-      (match step s1 (Op.advanceSuspend x.h) with
-      | (s2, Res.flag true) =>
-          ({ d with s := s2 }.put sid { x with kind := kind }, s!"{name} {sid} parked{posStr s2 x.h}")
-      | (s2, Res.flag false) =>
-          let (s3, r) := step s2 (Op.getValue x.h)
-          let txt := match r with | Res.value v => valStr v | _ => "?"
-          ({ d with s := s3 }, s!"{name} {sid} {txt}{posStr s3 x.h}")
-      | _ => (d, "bad"))
-  | _ => (d, "bad")
+/-- `blk` / `co` / `chain` operation line -/
+def wholeNext (d : D) (sid : Nat) (x : DSub) (name : String) (kind : Nat) (follow : Option Nat := none) : D × String :=
+  match wholeNextCore d sid x kind follow with
+  | none => (d, "bad")
+  | some (d1, txt, parked) =>
+      let head := s!"{name} {sid} " ++ (txt.replace "@" " pos=")
+      if parked then (d1, head)
+      else match follow with
+        | none => (d1, head)
+        | some b => let (d2, e) := followNext d1 b; (d2, evLine head [e])
 
 def doLine (d : D) (ws : List String) : D × String :=
   match ws with
@@ -164,6 +205,10 @@ def doLine (d : D) (ws : List String) : D × String :=
       (match sid.toNat?, sid.toNat?.bind d.live with
       | some n, some x => wholeNext d n x "co" 2
       | _, _ => (d, "bad"))
+  | ["chain", sid, b] =>
+      (match sid.toNat?, sid.toNat?.bind d.live, b.toNat? with
+      | some n, some x, some b => wholeNext d n x "chain" 2 (some b)
+      | _, _, _ => (d, "bad"))
   | "pubn" :: vals =>
       globalOp d (Op.push (vals.filterMap String.toNat?)) (fun s => s!"pubn q={s.q.length}")
   | ["pub", v] =>
